@@ -187,20 +187,26 @@ def rule_data_offset(ctx, rep):
     for tag, F, E in ctx.each(da=False):
         L = layout.Layouts(F)
         # data offset expression
+        from .. import ptrclass
+
         for b in F.body_list:
-            # role: the helper on the block type that maps a payload pointer to the payload's offset
-            imp = b.get("impl") or {}
-            if not (imp and not imp.get("trait") and F.is_adt(imp["self_ty"], F.inner_path) and "output" in b and F.ts(b["output"]) == "usize" and b.get("inputs") and F.ty(b["inputs"][0])["k"] == "ptr"):
+            # role: the function that maps a payload pointer to the payload's offset in its block (a method of the block type or
+            # a free function: identified by use, see ptrclass.offset_fns)
+            if b["key"] not in ptrclass.offset_fns(F):
                 continue
             B = cfg.Body(b)
             e = symx.local_expr(F, B, 0, 0)
-            st = F.ty(b["impl"]["self_ty"])
+            pointee = F.ty(b["inputs"][0])["t"]
+            block_ty = next((i for i, t in enumerate(F.types) if t["k"] == "adt" and t["path"] == F.inner_path and [a["t"] for a in t["args"] if "t" in a] == [pointee]), None)
+            if block_ty is None:
+                rep.bad("R-OFFSET", b["key"] + "/data-offset", "cannot find the block type for the payload type %s of the offset function" % F.ts(pointee), F.loc(b), tag)
+                continue
             bad = None
             try:
                 for sh_t in shapes:
-                    sh = {x: sh_t for x in set(F.ty(y)["name"] for y in F.walk(b["impl"]["self_ty"]) if F.ty(y)["k"] == "param")}
+                    sh = {x: sh_t for x in set(F.ty(y)["name"] for y in F.walk(block_ty) if F.ty(y)["k"] == "param")}
                     v = L.eval(e, sh, {}, 0)
-                    r = L.type_layout(b["impl"]["self_ty"], sh, 0, want_fields=True)
+                    r = L.type_layout(block_ty, sh, 0, want_fields=True)
                     want = r[2][F.data_field[0]]
                     cells_total += 1
                     if v != want and bad is None:
